@@ -173,6 +173,28 @@ static var thr_fn(var args) {
   return NULL;
 }
 
+/* builds a heap view over fresh collector-allocated inputs and returns ONLY the view (the inputs too, through
+   `keep`, for the manual-memory variant) */
+static var __attribute__((noinline)) hv_build(int64_t kind, int64_t k, int64_t m, var* keep) {
+  var a = new(Array, Int); var l = new(List, String);
+  int64_t n = 1 + imod(m, 7);
+  for (int64_t i = 0; i < n; i++) { push(a, $I(k + 3 * i)); char b[64]; word(k + i, b); push(l, $S(b)); }
+  var v = NULL;
+  switch (kind) {
+    case 0: v = new(Zip, a, l); if (keep) { keep[0] = a; keep[1] = l; } break;
+    case 1: v = new(Slice, l, $I(imod(k, n))); if (keep) { keep[0] = l; keep[1] = a; } else del(a); break;
+    case 2: { var fn = new(Function, $(Function, f_map)); v = new(Map, a, fn); if (keep) { keep[0] = a; keep[1] = fn; keep[2] = l; } else del(l); break; }
+    case 3: { var fn = new(Function, $(Function, f_pred)); FPARAM = 1 + imod(m, 3); v = new(Filter, a, fn); if (keep) { keep[0] = a; keep[1] = fn; keep[2] = l; } else del(l); break; }
+    default: v = new(Range, $I(imod(k, 9)), $I(imod(k, 9) + n)); del(a); del(l); break;
+  }
+  return v;
+}
+/* overwrite what the builder's frame (and its callees') left on the stack */
+static void __attribute__((noinline)) hv_scrub(void) {
+  volatile var pad[512];
+  for (int i = 0; i < 512; i++) pad[i] = NULL;
+}
+
 struct W { var R[NREG]; int64_t a[6]; int na; };
 
 static void thrower(int depth, int64_t which, int64_t k) {
@@ -582,6 +604,37 @@ static void op_exec(struct W* w, const char* op) {
         append(s2, s1); resize(s1, 0); P("%s,%zu", c_str(s2), len(s1)); del(i1); del(f1); del(s1); del(s2); break;
       }
     }
+    return;
+  }
+  if (strcmp(op, "hv") == 0) {
+    /* a heap view (Zip, Slice, Map, Filter, Range) that holds the ONLY reference to collector-allocated inputs:
+       built in a frame that has returned, the dead frame overwritten, then allocation pressure and a forced
+       collection, then full use of the view.  A(0) even: the collected style (nothing is deleted; without a
+       collector the objects simply stay); odd: manual memory management (the builder hands the inputs out too
+       and the program deletes view and inputs exactly once). */
+    var inp[3] = { NULL, NULL, NULL };
+    int64_t kind = imod(A(0) / 2, 5); bool manual = imod(A(0), 2);
+    var v = hv_build(kind, A(1), A(2), manual ? inp : NULL);
+    hv_scrub();
+    int64_t acc = 0;
+    for (int64_t i = 0; i < 600; i++) { var g = new(Int, $I(i)); acc += c_int(g) % 3; }    /* pressure */
+#ifndef CELLO_NGC
+    GC_Mark(current(GC)); GC_Sweep(current(GC));
+#endif
+    for (int64_t i = 0; i < 200; i++) { var g = new(String, $S("pressure")); acc += (int64_t)len(g); }   /* reuse freed blocks */
+    P("%s:", c_str(type_of(v)));
+    if (kind != 3) P("len=%zu,", len(v));
+    P("[");
+    foreach (e in v) {
+      if (kind == 0) { pv(get(e, $I(0))); P(":"); pv(get(e, $I(1))); } else pv(e);
+      P(" ");
+    }
+    P("]");
+    if (kind != 3 and len(v) > 0) {
+      var g0 = get(v, $I(0));
+      if (kind == 0) { P("get="); pv(get(g0, $I(0))); P(":"); pv(get(g0, $I(1))); } else { P("get="); pv(g0); }
+    }
+    if (manual) { del(v); for (int i = 0; i < 3; i++) if (inp[i]) del(inp[i]); P(",freed"); }
     return;
   }
   if (strcmp(op, "sk") == 0) {        /* objects that are not on the heap: stack (alloc_stack) and static (types, exception objects) */
